@@ -225,6 +225,8 @@ def items(tier):
         for j in range(0, len(words), g):
             out.append(dict(kind="hist", id="%s-g%02d" % (name, j // g), shape=c["shape"], cplx=c["cplx"], init=c["init"],
                             k1=c["k1"], k2=c["k2"], nof=nof, first=j, hist=words[j:j + g]))
+    for w in range(len(DYAD_WORDS)):
+        out.append(dict(kind="dyad", id="dyad-w%d" % w, word=w))
     return out
 
 
@@ -589,12 +591,69 @@ def _unknown():
     return SB(z3.Bool("skipped!remaining-histories"))
 
 
-SCEN = {"hist": sc_hist}
+# ------------------------------------------------------------------------------------------------ dyadic values
+DYAD_WORDS = [
+    ["addA(D)", "addB(D)", "addA(E)"],                 # same object to two signals, then accumulate into one
+    ["addA(D)", "addB(D)", "addB(E)", "addA(E)"],
+    ["addA(D)", "mutate(D)"],                          # changing the added object afterwards
+    ["addA(D)", "addA(E)", "mutate(E)", "addB(E)"],
+    ["addA(D)", "addB(D)", "resetA", "addA(E)"],
+    ["addA(D)", "addB(D)", "addA(D)"],                 # the same object twice into one signal
+]
+
+
+def sc_dyad(V, P, cfg):
+    """Signals whose sensitivity is a DyadCarrier (what LinSolve/EigenSolve produce for sparse matrices): the value
+    passed to add_sensitivity must not be aliased (it has mutable members: the u and v lists)."""
+    import pymoto as pym
+    from .common import NumProver
+    n = 2
+    word = DYAD_WORDS[cfg["word"]]
+
+    def mk(name):
+        u, v = V.reals(name + "u", n, nonzero=True), V.reals(name + "v", n, nonzero=True)
+        return pym.DyadCarrier(u, v), np.outer(np.asarray(u), np.asarray(v))
+    D, Dd = mk("D")
+    E, Ed = mk("E")
+    vals = {"D": [D, Dd], "E": [E, Ed]}
+    sigs = {"A": pym.Signal("A"), "B": pym.Signal("B")}
+    model = {"A": None, "B": None}
+    obs = {}
+    for k, op in enumerate(word):
+        if op.startswith("add"):
+            sg, nm = op[3], op[5]
+            sigs[sg].add_sensitivity(vals[nm][0])
+            model[sg] = vals[nm][1].copy() if model[sg] is None else model[sg] + vals[nm][1]
+        elif op.startswith("mutate"):
+            nm = op[7]
+            extra_u, extra_v = V.reals("m%du" % k, n, nonzero=True), V.reals("m%dv" % k, n, nonzero=True)
+            vals[nm][0].add_dyad(extra_u, extra_v)             # the caller keeps using its own object
+            vals[nm][1] = vals[nm][1] + np.outer(np.asarray(extra_u), np.asarray(extra_v))
+        elif op.startswith("reset"):
+            sigs[op[5]].reset()
+            model[op[5]] = None
+        for sg in ("A", "B"):
+            got = sigs[sg].sensitivity
+            lab = "w%d|%d|%s:%s" % (cfg["word"], k + 1, op, sg)
+            if P is not None:
+                if model[sg] is None or got is None:
+                    P.holds(lab + ".is-none", (got is None) == (model[sg] is None), kind="dyad-sensitivity")
+                else:
+                    P.arrays_eq(lab, got.todense(), model[sg], kind="dyad-sensitivity")
+                    for nm in ("D", "E"):
+                        P.holds(lab + ".not-the-added-object(%s)" % nm, got is not vals[nm][0], kind="dyad-aliasing")
+            obs["s%d%s" % (k, sg)] = None if got is None else got.todense()
+    return obs
+
+
+SCEN = {"hist": sc_hist, "dyad": sc_dyad}
 
 
 def run_item(cfg, tier):
     from .refs_merge import merge_discharged, prime_inspect_cache
     prime_inspect_cache()
+    if cfg["kind"] == "dyad":
+        return symbolic_run(sc_dyad, cfg, tier, max_paths=8)
     return merge_discharged(symbolic_run(SCEN[cfg["kind"]], cfg, tier, max_paths=4))
 
 
@@ -610,6 +669,11 @@ def _norm_clause(c):
 
 def replay(cfg, label, env, case):
     """Re-run the one history named in the label on the real library with floats, with the model in lock-step."""
+    if cfg.get("kind") == "dyad":
+        from .common import NumProver
+        P = NumProver()
+        sc_dyad(Vals(env=env), P, cfg)
+        return P.verdict(label)
     try:
         h = int(label.split("|")[0][1:])
         step = int(label.split("|")[1])
